@@ -86,6 +86,23 @@ CHECKS = {
         "mutually assignable; operands involving type parameters skipped. Entry-block definitions count as available in the recover region. All modes build serially (parallel building is C18, n/a).",
    technique="SMT path-existence queries + solver sort checking over natively built IR",
    design="3/C02"),
+ "C01": dict(
+   level="translation_validation",
+   text="go/ir builds IR natively (naive, lifted, each with and without debug refs) for a hand-written corpus and a bounded-exhaustive family of generated programs; every function's IR is rendered back into Go "
+        "according to the documented meaning of each instruction (labelled blocks, one variable per value, parallel phi copies on edges) and executed by the symbolic engine next to the source function "
+        "on the same symbolic inputs: results, panic/no-panic outcome, stores through pointer arguments and the trace of opaque calls must agree on every path (solver-decided assertions).",
+   note="Programs: ~100 corpus functions + ~1300 generated (quick) functions, not all programs. Reference for the source semantics is x/tools go/ssa in the same engine; counterexamples are replayed with gc-compiled code. "
+        "Compositional (callees as in source). Loop-bound parameters restricted to -1..4, strings ASCII <= 2 bytes, slices <= 2 elements. Outside: goroutines, channels, select, map iteration, floats, unsafe; range-over-func; methods as subjects.",
+   technique="translation validation: IR rendered to Go + bounded symbolic execution (go/ssa) + SMT, native replay",
+   design="3/C01"),
+ "C15": dict(
+   level="model_checking",
+   text="The real nilness analysis runs natively (through the repository's runner) over a corpus of ~90 functions covering the constructs in the property; for every exported fact that claims NeverNil/AlwaysNil "
+        "(interface value or held value) a harness is generated and executed symbolically over go/ssa with inputs ranging over nil / fresh pointers, nil/empty/non-empty slices and maps, nil / typed-nil / non-nil interfaces, "
+        "function values and integers; the claim is asserted at every normal return.",
+   note="Programs: the corpus only. Methods skipped (facts are reported by bare name). Channels sequential. The SA4023 clause follows from the facts and is not re-derived separately.",
+   technique="bounded symbolic execution of go/ssa + SMT against natively computed facts, native replay",
+   design="3/C15"),
 }
 
 NA = {
